@@ -152,7 +152,7 @@ func (F *Facts) resolveCalls() {
 					// user-supplied.
 					continue
 				}
-				if sc := com.StaticCallee(); sc != nil {
+				if sc := ir.Callee(com); sc != nil {
 					if isOwn(P, sc) && sc.Blocks != nil {
 						F.callees[ci] = []*ssa.Function{sc}
 					} else {
